@@ -36,7 +36,7 @@ SEEDS = ["", "a", "aB", "a*", "*a", "*a*", "a?b", "a\\*b", "a\\\\*", "a\\b", "a\
          "::1/128", "10.0.0.1/8", "a.*", "^a$", "(", "a|b", ".*a.*", "field name", "a%x", "%x%*%y%",
          0, 5, -1, 1.5, 2.0, True, False, None, ["a", "b*"], [1, 2], ["a", 1, None], [], ["-a", "/b"],
          ["%x%", "c"],
-         "(?i)foo", "(?s)a.b", "a(?i)b",
+         "(?i)foo", "(?s)a.b", "a(?i)b", "foo\\$", "a\\.*", "a\\\\$", "a\\\\.*", "\\^a",
          # sizes beyond the small ones: long placeholder names, long values, long lists
          "%" + "p" * 33 + "%", "a%" + "long_placeholder_name_" * 4 + "%b", "x" * 100 + "-y", "%" + "q" * 300 + "%*",
          [f"v{i}" for i in range(40)], ["-a"] * 3 + ["b-c"] * 20]
